@@ -15,6 +15,17 @@ open Okane
 
 /-! ## the posting line, decomposed -/
 
+theorem spaces_four : spaces 4 = [' ', ' ', ' ', ' '] := rfl
+
+theorem txnLines_eq (cx : Ctx) (t : Transaction) :
+    txnLines cx t
+      = txnHeader t :: (t.metadata.map (metaLine 4) ++ t.posts.flatMap (postingLines cx)) := by
+  simp [txnLines, Params.txnMetaIndent]
+
+theorem postingLines_eq (cx : Ctx) (p : Posting) :
+    postingLines cx p = postingHead cx p :: p.metadata.map (metaLine 4) := by
+  simp [postingLines, Params.postMetaIndent]
+
 theorem spaces_snoc (n : Nat) : spaces n ++ [' '] = spaces (n + 1) := by
   simp [spaces, List.replicate_succ']
 
@@ -146,7 +157,6 @@ theorem C19_balance (cx : Ctx) (hnum : NumOK cx) (hsym : SymOK cx.w) (p : Postin
   have hge := getColumn_ge (50 + trailing cx b) (accountWidth cx p) 3
   simp only [beforeEq, ha, gapWidth, hb, balancePadding, Option.isSome_none, Bool.false_eq_true, ↓reduceIte,
     Params.balanceColumn, Params.balancePadding, strWidth_append, strWidth_spaces cx.w hsp]
-  rw [← accountWidth_eq] at *
   have hacc := accountWidth_eq cx p
   simp only [strWidth_append] at hacc
   omega
@@ -177,28 +187,28 @@ theorem C19_balance_same_column (cx : Ctx) (hnum : NumOK cx) (hsym : SymOK cx.w)
 
 theorem metaLine_indent (m : Metadata) :
     ∃ c rest, metaLine 4 m = ' ' :: ' ' :: ' ' :: ' ' :: c :: rest ∧ c ≠ ' ' :=
-  ⟨';', ' ' :: printMetadata m, by simp [metaLine], by decide⟩
+  ⟨';', ' ' :: printMetadata m, by simp [metaLine, spaces_four], by decide⟩
 
 theorem postingHead_indent (cx : Ctx) (p : Posting) (hacc : AccountOK p) :
     ∃ c rest, postingHead cx p = ' ' :: ' ' :: ' ' :: ' ' :: c :: rest ∧ c ≠ ' ' := by
   obtain ⟨c, cs, hc, hne⟩ := hacc
   rw [(C19_gap cx p).1]
   cases p.clear with
-  | uncleared => exact ⟨c, cs ++ spaces (gapWidth cx p) ++ afterGap cx p, by simp [clearMark, hc], hne⟩
+  | uncleared => exact ⟨c, cs ++ spaces (gapWidth cx p) ++ afterGap cx p, by simp [clearMark, hc, spaces_four], hne⟩
   | cleared =>
-    exact ⟨'*', ' ' :: p.account.toList ++ spaces (gapWidth cx p) ++ afterGap cx p, by simp [clearMark], by decide⟩
+    exact ⟨'*', ' ' :: p.account.toList ++ spaces (gapWidth cx p) ++ afterGap cx p, by simp [clearMark, spaces_four], by decide⟩
   | pending =>
-    exact ⟨'!', ' ' :: p.account.toList ++ spaces (gapWidth cx p) ++ afterGap cx p, by simp [clearMark], by decide⟩
+    exact ⟨'!', ' ' :: p.account.toList ++ spaces (gapWidth cx p) ++ afterGap cx p, by simp [clearMark, spaces_four], by decide⟩
 
 /-- **C19_indent** — every posting line and every metadata line a transaction prints (every line body after the header)
 starts with exactly four blanks. -/
 theorem C19_indent (cx : Ctx) (t : Transaction) (hacc : ∀ p ∈ t.posts, AccountOK p) :
     ∀ l ∈ (txnLines cx t).tail, ∃ c rest, l = ' ' :: ' ' :: ' ' :: ' ' :: c :: rest ∧ c ≠ ' ' := by
   intro l hl
-  simp only [txnLines, List.tail_cons, List.mem_append, List.mem_map, List.mem_flatMap] at hl
+  simp only [txnLines_eq, List.tail_cons, List.mem_append, List.mem_map, List.mem_flatMap] at hl
   rcases hl with ⟨m, _, rfl⟩ | ⟨p, hp, hl⟩
   · exact metaLine_indent m
-  · simp only [postingLines, List.mem_cons, List.mem_map] at hl
+  · simp only [postingLines_eq, List.mem_cons, List.mem_map] at hl
     rcases hl with rfl | ⟨m, _, rfl⟩
     · exact postingHead_indent cx p (hacc p hp)
     · exact metaLine_indent m
@@ -229,14 +239,14 @@ theorem entryLines_ne_nil (cx : Ctx) (e : Entry) : ∀ l ∈ entryLines cx e, l 
   intro l hl
   cases e with
   | txn t =>
-    simp only [entryLines, txnLines, List.mem_cons, List.mem_append, List.mem_map, List.mem_flatMap] at hl
+    simp only [entryLines, txnLines_eq, List.mem_cons, List.mem_append, List.mem_map, List.mem_flatMap] at hl
     rcases hl with rfl | ⟨m, _, rfl⟩ | ⟨p, _, hl⟩
     · simp [txnHeader, fmtDate]
-    · simp [metaLine, Params.txnMetaIndent]
-    · simp only [postingLines, List.mem_cons, List.mem_map] at hl
+    · simp [metaLine]
+    · simp only [postingLines_eq, List.mem_cons, List.mem_map] at hl
       rcases hl with rfl | ⟨m, _, rfl⟩
       · simp [postingHead, Params.postingIndent]
-      · simp [metaLine, Params.postMetaIndent]
+      · simp [metaLine]
   | comment s => exact lineWrap_ne_nil _ _ (by simp) l hl
   | applyTag k v =>
     simp only [entryLines, List.mem_singleton] at hl
@@ -292,5 +302,89 @@ theorem C19_blank (cx : Ctx) (es : List Entry) (hnl : ∀ e ∈ es, ∀ l ∈ en
     linesOf (formatEntriesG cx es) = es.flatMap (fun e => entryLines cx e ++ [[]])
     ∧ ∀ e ∈ es, ∀ l ∈ entryLines cx e, l ≠ [] :=
   ⟨linesOf_format cx es hnl, fun e _ => entryLines_ne_nil cx e⟩
+
+/-! ## the hypotheses hold for the printer as okane runs it -/
+
+/-- the real number printer (`rescale(amount, ctx).to_string()`) emits only `[0-9,.-]`, which take one byte and, in the
+width table validated against unicode-width, one column -/
+theorem std_numOK (prec : String → Nat) : NumOK (Ctx.std prec) := by
+  intro v c ch hch
+  exact (mem_printPDec _ ch hch).narrow
+
+theorem std_symOK (prec : String → Nat) : SymOK (Ctx.std prec).w := by
+  intro c hc
+  show widthCjk c = 1
+  simp only [List.mem_cons, List.not_mem_nil, or_false] at hc
+  rcases hc with rfl | rfl | rfl | rfl | rfl | rfl | rfl <;> decide
+
+/-- C19_column for the printer as okane runs it, for every declared precision -/
+theorem C19_column_std (prec : String → Nat) (p : Posting) (a : PostingAmount) (ha : p.amount = some a)
+    (hshort : strWidth widthCjk (clearMark p.clear ++ p.account.toList)
+                + (numericPart (Ctx.std prec) a.amount).length + 2 < 48) :
+    strWidth widthCjk (headUpToNumber (Ctx.std prec) p a) = 52 :=
+  (C19_column_display (Ctx.std prec) (std_numOK prec) (std_symOK prec) p a ha hshort).2
+
+/-! ## non-vacuity: the hypotheses are met by concrete postings, and the conclusions are the layout one sees -/
+
+section Examples
+
+private def cx0 : Ctx := Ctx.std (fun _ => 0)
+private def usd (mant scale : Nat) : VExpr := .amt ⟨false, mant, scale, none⟩ "USD"
+private def pAmt : Posting := { account := "Assets:Bank", amount := some { amount := usd 12345 2 } }
+/-- a context in which `W` is a wide character (two columns), to exercise widths that differ from lengths -/
+private def cxW : Ctx := { cx0 with w := fun c => if c.toNat == 87 then 2 else widthCjk c }
+private def pWide : Posting := { account := "WWW:WW", clear := .pending, amount := some { amount := usd 5 0 } }
+private def pAssert : Posting := { account := "Account", amount := some { amount := usd 1 0 }, balance := some (usd 1 0) }
+private def pBal : Posting := { account := "Account", balance := some (usd 1 0) }
+private def pLong : Posting :=
+  { account := "Liabilities:CreditCard:SomeVeryLongBankName:AnotherSegment:limit", balance := some (.amt ⟨false, 0, 0, none⟩ "") }
+private def tEx : Transaction :=
+  { date := ⟨2024, 1, 2⟩, payee := "shop", metadata := [.comment "note"], posts := [pAmt, pWide, pAssert, pBal, pLong] }
+
+-- what the model prints
+example : postingHead cx0 pAmt = "    Assets:Bank                               123.45 USD".toList := by decide +kernel
+example : postingHead cxW pWide = "    ! WWW:WW                                  5 USD".toList := by decide +kernel
+example : postingHead cx0 pAssert = "    Account                                        1 USD = 1 USD".toList := by decide +kernel
+example : postingHead cx0 pBal = "    Account                                              = 1 USD".toList := by decide +kernel
+example : postingHead cx0 pLong
+    = "    Liabilities:CreditCard:SomeVeryLongBankName:AnotherSegment:limit  = 0".toList := by decide +kernel
+
+-- C19_column: the hypothesis holds for an ASCII and for a wide account; the numeric part ends at column 52
+example : strWidth cx0.w (headUpToNumber cx0 pAmt { amount := usd 12345 2 }) = 52 :=
+  (C19_column_display cx0 (std_numOK _) (std_symOK _) pAmt _ rfl (by decide +kernel)).2
+example : strWidth cxW.w (headUpToNumber cxW pWide { amount := usd 5 0 }) = 52 := by decide +kernel
+example : (headUpToNumber cxW pWide { amount := usd 5 0 }).length = 47 := by decide +kernel  -- 5 wide characters
+-- C19_gap: something follows the account; the F11 witness (66-column account, balance only) now gets two blanks
+example : 2 ≤ gapWidth cx0 pLong := (C19_gap cx0 pLong).2 (by decide)
+example : gapWidth cx0 pLong = 2 := by decide +kernel
+-- C19_fallback: hypothesis met by a long account
+example : amountPad cx0 { pLong with amount := some { amount := usd 5 0 } } { amount := usd 5 0 } = 2 :=
+  C19_fallback cx0 (std_numOK _) (std_symOK _) _ _ (by decide +kernel)
+-- C19_balance: `=` in column 54 + 4 (the width of " USD"), with and without an amount before it
+example : strWidth cx0.w (beforeEq cx0 pBal) = 53 + strWidth cx0.w (afterNumeric cx0 (usd 1 0)) :=
+  (C19_balance cx0 (std_numOK _) (std_symOK _) pBal (usd 1 0) rfl rfl (by decide +kernel)).2
+example : strWidth cx0.w (beforeEq cx0 pAssert) = strWidth cx0.w (beforeEq cx0 pBal) :=
+  C19_balance_same_column cx0 (std_numOK _) (std_symOK _) pBal pAssert (usd 1 0) { amount := usd 1 0 }
+    rfl rfl rfl rfl rfl rfl rfl rfl (by decide +kernel)
+example : strWidth cx0.w (beforeEq cx0 pBal) = 57 := by decide +kernel
+-- C19_indent / C19_blank: the hypotheses hold for a transaction with five postings and a comment entry
+example : ∀ p ∈ tEx.posts, AccountOK p := by
+  intro p hp
+  simp only [tEx, List.mem_cons, List.not_mem_nil, or_false] at hp
+  rcases hp with rfl | rfl | rfl | rfl | rfl
+  · exact ⟨'A', "ssets:Bank".toList, by decide +kernel, by decide⟩
+  · exact ⟨'W', "WW:WW".toList, by decide +kernel, by decide⟩
+  · exact ⟨'A', "ccount".toList, by decide +kernel, by decide⟩
+  · exact ⟨'A', "ccount".toList, by decide +kernel, by decide⟩
+  · exact ⟨'L', "iabilities:CreditCard:SomeVeryLongBankName:AnotherSegment:limit".toList, by decide +kernel, by decide⟩
+example : ∀ e ∈ [Entry.txn tEx, .comment " top\n second\n"], ∀ l ∈ entryLines cx0 e, '\n' ∉ l := by decide +kernel
+example : linesOf (formatEntriesG cx0 [.comment " top\n second\n", .include "a.ledger"])
+    = ["; top".toList, "; second".toList, [], "include a.ledger".toList, []] := by decide +kernel
+-- the alignment of the unit test's expression `((1.20 + 2.67) * 3.1 USD + 5 USD)` is 20
+example : (fmtVExpr cx0 (.paren (.bin .add (.bin .mul (.val (.paren (.bin .add (.val (.amt ⟨false, 120, 2, none⟩ ""))
+    (.val (.amt ⟨false, 267, 2, none⟩ ""))))) (.val (.amt ⟨false, 31, 1, none⟩ "USD"))) (.val (usd 5 0))))).2 = .complete 20 := by
+  decide +kernel
+
+end Examples
 
 end Okane.Print
